@@ -55,11 +55,15 @@ CLAIMED = {
     "C08": ("Theorems: each pass stores exactly the bytes from the remembered position on and returns the new position (any chunking); over any append-only growth the slices concatenate to the file "
             "(no byte missing or duplicated); the position round-trips through its decimal file and a torn write only rewinds. Tie: append histories with restarts and every single fault in copy and position update.",
             NOTE + "Known finding K1: a fault inside the position update duplicates the slice after the restart (at-least-once).", "induction over append histories + decimal codec lemmas; world correspondence + history monitor"),
-    "C10": ("Theorems: catch only at depth 0 and errors never dropped by finally/try (trace bookkeeping); every call confined under any number of faults; an interrupted position update never moves ahead. "
-            "Tie: every call index of the implementation's own log x plausible errnos for 15 scenario families (one fault at a time), then release, restart, drain; outcome, error trace, log and disk "
-            "compared with the model; monitors: completed-or-reported, nothing pending lost, no partial version, position kept.",
-            NOTE + "Allocation failures are not modelled (not enumerated in this version). Faults ENOENT/EACCES at the open of the source simulate the expected conditions. Known finding K3.",
-            "fault enumeration against the model under the same oracle + monitors; trace lemmas"),
+    "C10": ("Theorems: catch only at depth 0 and errors never dropped by finally/try; every call confined under any number of faults. World level, for EVERY oracle, one iteration of the pass over a file head: "
+            "a failed call of the copy in the reported class ends the iteration with the error on the trace and the stop result; then no unlinkat was issued and every existing file and link (the head's queue link included) "
+            "is still there; the store holds no new entry except when the oracle failed the very unlink of the destination or the copy was complete and the position update failed (K1); the position of a history path is "
+            "not rewound except by a fault inside its own update (then a prefix of the new digits); a crash during the copy keeps every entry; expected conditions (source gone / unreadable / not regular) go on without stopping. "
+            "Tie: every call index of the implementation's own log x plausible errnos for the scenario families (one fault at a time; ENOENT/EACCES always tried at the source open), then release, restart, drain; outcome, error "
+            "trace, log and disk compared with the model; monitors: completed-or-reported, nothing pending lost (files and projects), a failed copy leaves no version, position kept and never ahead of the store.",
+            NOTE + "By the code's design a failing close of the source / of the position file and a failing rmdir in clean_up are not reported (refuted as literal statements, kept as witnesses). Project heads are enumerated, not proved. "
+            "Allocation failures are not injected. Known finding K3.",
+            "program logic for all oracles over the world model; fault enumeration against the model under the same oracle + monitors; trace lemmas"),
     "C11": ("Theorems: the flags of a queued project member round-trip. World level, every benign oracle, BOTH traversal orders: after the snapshot program the new directory holds, at the same relative paths, the same inodes "
             "as the unstable project tree for everything the project still has and nothing else; what the project lost is pruned; intermediate directories exist; store, earlier snapshots and all contents unchanged; "
             "a due project head yields exactly one new snapshot directory (also after k name collisions), one journal line, and only then leaves the queue. Tie: project histories (root and parent style, depth 1-4, "
